@@ -295,7 +295,9 @@ def gen_map_config(rng: random.Random) -> list[dict]:
             m["writable"] = 1
         if rng.random() < (0.6 if not m.get("writable") else 0.35):
             # also RAM with a mirror (LoROM SRAM 70-7D seen again at F0-FD): the mirror banks are RAM as well
-            mir = take(br[1] - br[0] + 1)
+            # mostly as long as the range it mirrors, sometimes shorter (stock LoROM: 00-6F seen at 80-CF) or longer (00-6F seen at 80-FF)
+            blen = br[1] - br[0] + 1
+            mir = take(rng.choice([blen, blen, blen, max(1, blen // 2), None, blen + rng.randint(1, 24)]))
             if mir is not None:
                 m["mirror_bank_range"] = mir
         maps.append(m)
